@@ -56,7 +56,17 @@ reg('Cci', cfg=lambda r, h: ([P(r, h)], []), default=([20], []), idle=lambda ns:
     inds=[('Cci', lambda ns: ns, 'hlc')],
     rule=lambda v, s, pv: B if v[0] >= 100 else (S if v[0] <= -100 else H),
     margin=lambda v, s, pv: min(abs(v[0] - 100), abs(v[0] + 100)))
-reg('Dema', cfg=lambda r, h: (list(two_sorted(r, h)), []), default=([5, 35], []),
+def _dema_cfg(r, h):
+    if r.random() < 0.5:
+        return (list(two_sorted(r, h)), [])
+    # each DEMA with its own two EMA periods [p1, p2, q1, q2]; the first DEMA warms up no later than the second
+    p1, q1, p2, q2 = (P(r, h) for _ in range(4))
+    if p1 + q1 > p2 + q2:
+        p1, q1, p2, q2 = p2, q2, p1, q1
+    return ([p1, p2, q1, q2], [])
+
+
+reg('Dema', cfg=_dema_cfg, default=([5, 35], []),
     idle=lambda ns: ns[1] + (ns[3] if len(ns) > 3 else ns[1]) - 2,
     inds=[('Dema', lambda ns: [ns[0], ns[2] if len(ns) > 3 else ns[0]], 'c'), ('Dema', lambda ns: [ns[1], ns[3] if len(ns) > 3 else ns[1]], 'c')],
     rule=lambda v, s, pv: gt(v[0], v[1]), margin=lambda v, s, pv: abs(v[0] - v[1]))
